@@ -381,3 +381,92 @@ def selftest_corrupt(ctx, module, path, label, mutate, cfg=None):
                     "corrupted_record": idx, "rejected": rejected})
     if not rejected:
         raise ToolError("binding self-test: corrupted trace %s was accepted" % label)
+
+
+# ---------------------------------------------------------------------------
+# generic algebraic conformance: drive vek -> ndjson -> Trace_<X>.tla
+
+def law_runs(ctx, module, cfgs, workers=4, timeout=1800, heap="4g"):
+    """Run Law_* / MC_* configurations of one module in parallel; all must pass."""
+    from concurrent.futures import ThreadPoolExecutor
+    with ThreadPoolExecutor(max_workers=min(6, len(cfgs))) as ex:
+        futs = [(c, ex.submit(tlc, module, c, None, None, workers, timeout, None, None, heap)) for c in cfgs]
+        for c, f in futs:
+            r = f.result()
+            if r.invariant_violated:
+                sys.stderr.write(r.out[-3000:] + "\n")
+                raise ToolError("specification law %s violated in %s/%s: the specification itself is wrong" % (
+                    r.invariant_violated, module, c))
+            tlc_ok(r, "%s/%s" % (module, c))
+            ctx.add_tlc(r, c, "law_on_spec")
+
+
+def drive_validate(ctx, drive, module, cfg, label, n, expect_ops, key=None, extra_args=None,
+                   corrupt_op=None, corrupt=None, timeout=1200, nontrivial=None, describe=None):
+    """B2 for one driver: run `vh drive <drive>`, validate the trace with spec/<module>.tla under
+    <cfg>, turn every record the specification rejects into a violation, then demonstrate the
+    binding by corrupting one recorded result."""
+    tr = os.path.join(ctx.work, "%s.ndjson" % label)
+    summ = tr + ".summary"
+    args = ["drive", drive, "--out", tr, "--seed", ctx.seed, "--n", n, "--summary", summ] + list(extra_args or [])
+    vh(args, timeout=timeout)
+    s = json.load(open(summ))
+    ctx.inconclusive += s.get("inconclusive", 0)
+    recs = read_ndjson(tr)
+    if not recs:
+        raise ToolError("driver %s produced no events" % drive)
+    for r in recs:
+        if nontrivial is None or nontrivial(r):
+            ctx.nontrivial({k: v for k, v in r.items() if k not in ("obs",)})
+    ctx.sample({k: recs[0][k] for k in recs[0]})
+    mm = validate_trace(ctx, module, tr, label, cfg=cfg, expect_actions=expect_ops, timeout=timeout)
+    ctx.traces += 1
+    ctx.sub[-1]["driver_summary"] = {k: s[k] for k in ("events", "inconclusive", "panics")}
+    for rec, info in mm:
+        k = key(rec) if key else rec.get("op", "?")
+        what = describe(rec, info) if describe else "%s: vek returned %s, specification %s  [record %s]" % (
+            rec.get("op"), json.dumps(rec.get("obs"))[:300], json.dumps(info.get("exp"))[:300],
+            json.dumps({a: b for a, b in rec.items() if a != "obs"})[:600])
+        ctx.violation(k, what, {"record": rec, "spec": info, "module": module, "cfg": cfg})
+    if corrupt is None:
+        def corrupt(rs):
+            idx = [i for i, r in enumerate(rs) if (corrupt_op is None or r["op"] == corrupt_op) and r.get("pan") == 0]
+            i = idx[len(idx) // 2]
+            rs[i]["obs"] = _bump(rs[i]["obs"])
+            return i
+    selftest_corrupt(ctx, module, tr, label, corrupt, cfg=cfg)
+    for q in os.listdir(ctx.work):
+        if q.startswith(label + ".ndjson"):
+            os.remove(os.path.join(ctx.work, q))
+    return recs, mm
+
+
+def _bump(v):
+    """Change one number inside a recorded observation."""
+    if isinstance(v, list):
+        if not v:
+            return [1]
+        return [_bump(v[0])] + v[1:]
+    if isinstance(v, bool):
+        return not v
+    if isinstance(v, int):
+        return v + 1
+    return v
+
+
+def replay_record(ctx, path):
+    """--replay: re-validate the recorded call(s) of a violation file against the specification."""
+    d = json.load(open(path))
+    first = d["first"]
+    det = first.get("detail") or {}
+    log(json.dumps(first, indent=1)[:4000])
+    if not det.get("module"):
+        return 0
+    tr = os.path.join(ctx.work, "replay.ndjson")
+    write_ndjson(tr, [det["record"]])
+    r = tlc(det["module"], det["cfg"], name="%s-replay" % ctx.prop, env={"TRACE": tr}, workers=1, deque=True, keep_out=True)
+    bad = any(isinstance(p, dict) and p.get("tag") in ("MISMATCH", "REJECTED_AT") for p in r.prints)
+    log("replayed record is %s by the specification" % ("REJECTED" if bad else "accepted"))
+    if bad:
+        log("VIOLATION property=%s replay=%s" % (ctx.prop, path))
+    return 1 if bad else 0
